@@ -141,7 +141,7 @@ pub fn ast_strategy() -> BoxedStrategy<Case> {
 }
 
 pub fn expr_strategy() -> BoxedStrategy<Case> {
-    vpool().prop_flat_map(|pool| prop_oneof![2 => leaf(pool.clone(), 4), 1 => expr(pool, 2, 3)]).prop_map(Case::Expr).boxed()
+    vpool().prop_flat_map(|pool| prop_oneof![2 => leaf(pool.clone(), 4), 1 => expr_with_any(pool, 2, 3)]).prop_map(Case::Expr).boxed()
 }
 
 pub fn fixed_texts() -> Vec<String> {
